@@ -115,6 +115,8 @@ func cmdCheck(args []string) int {
 	os.MkdirAll(replayDir, 0o755)
 	nviol := 0
 	nreplayed := 0
+	rb := newReplayBuilder(spec)
+	defer rb.close()
 	var replays []map[string]interface{}
 	var extraInconcl []string
 	var knownLines []string
@@ -130,7 +132,7 @@ func cmdCheck(args []string) int {
 			})
 			out := replayOutcome{File: rfile}
 			if !*noReplay {
-				out = replayNative(spec, hs, rfile, v)
+				out = rb.replayViolation(hs, rfile, v)
 				nreplayed++
 			}
 			replays = append(replays, map[string]interface{}{"harness": h.Name, "label": v.Label, "replay": out})
@@ -150,6 +152,21 @@ func cmdCheck(args []string) int {
 		}
 		for _, s := range h.Inconcl {
 			fmt.Printf("INCONCLUSIVE property=%s harness=%s: %s\n", prop, h.Name, s)
+		}
+		// translator validation: the witness model of one completed path must run clean natively
+		if !*noReplay && h.Witness != nil && os.Getenv("SYMX_NO_WITNESS_REPLAY") == "" {
+			hs := findHarnessSpec(spec, h.Name)
+			wfile := filepath.Join(replayDir, fmt.Sprintf("%s-witness.json", h.Name))
+			writeJSON(wfile, map[string]interface{}{"property": prop, "harness": h.Name, "func": hs.Func, "pkg": hs.Pkg, "kind": "witness",
+				"model": h.Witness, "params": h.Params, "known": sortedKeys(loadKnown(prop))})
+			ok, detail := rb.validateWitness(hs, wfile)
+			nreplayed++
+			replays = append(replays, map[string]interface{}{"harness": h.Name, "label": "witness path replayed natively: all assumptions and assertions hold", "replay": map[string]interface{}{"ran": true, "agrees": ok, "detail": detail, "file": wfile}})
+			if !ok {
+				msg := fmt.Sprintf("harness %s: native run of the witness model disagrees with the symbolic run (%s)", h.Name, detail)
+				extraInconcl = append(extraInconcl, msg)
+				fmt.Println("INCONCLUSIVE", msg)
+			}
 		}
 		// vacuity guard: each harness must complete at least one path
 		if h.Completed == 0 && len(h.Inconcl) == 0 {
@@ -181,15 +198,31 @@ func findHarnessSpec(spec *Spec, name string) HarnessSpec {
 	return HarnessSpec{}
 }
 
-// replayNative re-runs the harness as ordinary Go against the real build with the model values.
-func replayNative(spec *Spec, hs HarnessSpec, rfile string, v *Violation) replayOutcome {
-	out := replayOutcome{File: rfile}
-	tmp, err := os.MkdirTemp("", "symx-replay-")
-	if err != nil {
-		out.Detail = err.Error()
-		return out
+// replayBuilder compiles, once per harness package, a native test binary containing one test
+// per harness function of that package (tag verif, files injected by overlay).
+type replayBuilder struct {
+	spec   *Spec
+	tmp    string
+	bins   map[string]string
+	errors map[string]string
+}
+
+func newReplayBuilder(spec *Spec) *replayBuilder {
+	tmp, _ := os.MkdirTemp("", "symx-replay-")
+	return &replayBuilder{spec: spec, tmp: tmp, bins: map[string]string{}, errors: map[string]string{}}
+}
+
+func (rb *replayBuilder) close() { os.RemoveAll(rb.tmp) }
+
+func replayEnv(rfile string) []string {
+	return append(os.Environ(), "GOFLAGS=-mod=mod", "GOPROXY=off", "GOSUMDB=off", "GOTOOLCHAIN=local", "VERIF_REPLAY="+rfile)
+}
+
+func (rb *replayBuilder) binFor(pkg string) (string, string) {
+	if b, ok := rb.bins[pkg]; ok {
+		return b, rb.errors[pkg]
 	}
-	defer os.RemoveAll(tmp)
+	spec := rb.spec
 	specDir := filepath.Join(verifDir(), "harness", spec.Property)
 	repl := map[string]string{}
 	for _, shared := range []string{"verifrt", "verifenv"} {
@@ -201,10 +234,10 @@ func replayNative(spec *Spec, hs HarnessSpec, rfile string, v *Violation) replay
 	for _, f := range spec.Files {
 		repl[filepath.Join("/repo", f.Pkg, "zz_verif_"+filepath.Base(f.Src))] = filepath.Join(specDir, f.Src)
 	}
-	pkgName, err := goPackageName(filepath.Join("/repo", hs.Pkg))
+	pkgName, err := goPackageName(filepath.Join("/repo", pkg))
 	if err != nil {
 		for _, f := range spec.Files {
-			if f.Pkg == hs.Pkg {
+			if f.Pkg == pkg {
 				if n, e2 := packageClause(filepath.Join(specDir, f.Src)); e2 == nil {
 					pkgName, err = n, nil
 				}
@@ -212,53 +245,51 @@ func replayNative(spec *Spec, hs HarnessSpec, rfile string, v *Violation) replay
 		}
 	}
 	if err != nil {
-		out.Detail = err.Error()
-		return out
+		rb.bins[pkg], rb.errors[pkg] = "", err.Error()
+		return "", err.Error()
 	}
-	test := fmt.Sprintf(`//go:build verif
-
-package %s
-
-import (
-	"fmt"
-	"os"
-	"testing"
-
-	"github.com/ExocoreNetwork/exocore/verifrt"
-)
-
-func TestVerifReplay(t *testing.T) {
+	var sb strings.Builder
+	fmt.Fprintf(&sb, "//go:build verif\n\npackage %s\n\nimport (\n\t\"fmt\"\n\t\"os\"\n\t\"testing\"\n\n\t\"github.com/ExocoreNetwork/exocore/verifrt\"\n)\n\n", pkgName)
+	sb.WriteString(`func verifReplayRun(t *testing.T, f func()) {
 	if err := verifrt.LoadReplay(os.Getenv("VERIF_REPLAY")); err != nil {
 		t.Fatal(err)
 	}
 	defer func() {
 		if r := recover(); r != nil {
 			if _, ok := r.(verifrt.AssumptionViolated); ok {
-				fmt.Printf("VERIF-REPLAY assumption-violated %%v\n", r)
+				fmt.Printf("VERIF-REPLAY assumption-violated %v\n", r)
 				return
 			}
-			fmt.Printf("VERIF-REPLAY panic=%%v\n", r)
+			fmt.Printf("VERIF-REPLAY panic=%v\n", r)
 			return
 		}
 		for _, f := range verifrt.Failures() {
-			fmt.Printf("VERIF-REPLAY failed=%%s\n", f)
+			fmt.Printf("VERIF-REPLAY failed=%s\n", f)
 		}
 		fmt.Println("VERIF-REPLAY done")
 	}()
-	%s()
+	f()
 }
-`, pkgName, hs.Func)
-	tf := filepath.Join(tmp, "replay_test.go")
-	os.WriteFile(tf, []byte(test), 0o644)
-	repl[filepath.Join("/repo", hs.Pkg, "zz_verif_replay_test.go")] = tf
-	ovf := filepath.Join(tmp, "overlay.json")
+`)
+	seen := map[string]bool{}
+	for _, h := range spec.Harnesses {
+		if h.Pkg == pkg && !seen[h.Func] {
+			seen[h.Func] = true
+			fmt.Fprintf(&sb, "\nfunc TestVerifReplay_%s(t *testing.T) { verifReplayRun(t, %s) }\n", h.Func, h.Func)
+		}
+	}
+	dir := filepath.Join(rb.tmp, strings.ReplaceAll(pkg, "/", "_"))
+	os.MkdirAll(dir, 0o755)
+	tf := filepath.Join(dir, "replay_test.go")
+	os.WriteFile(tf, []byte(sb.String()), 0o644)
+	repl[filepath.Join("/repo", pkg, "zz_verif_replay_test.go")] = tf
+	ovf := filepath.Join(dir, "overlay.json")
 	writeJSON(ovf, map[string]interface{}{"Replace": repl})
-	bin := filepath.Join(tmp, "replay.test")
-	env := append(os.Environ(), "GOFLAGS=-mod=mod", "GOPROXY=off", "GOSUMDB=off", "GOTOOLCHAIN=local", "VERIF_REPLAY="+rfile)
+	bin := filepath.Join(dir, "replay.test")
 	var buf bytes.Buffer
-	build := exec.Command("go", "test", "-c", "-tags", "verif", "-overlay", ovf, "-vet=off", "-o", bin, "./"+hs.Pkg)
+	build := exec.Command("go", "test", "-c", "-tags", "verif", "-overlay", ovf, "-vet=off", "-o", bin, "./"+pkg)
 	build.Dir = "/repo"
-	build.Env = env
+	build.Env = replayEnv("")
 	build.Stdout = &buf
 	build.Stderr = &buf
 	if err := build.Run(); err != nil {
@@ -266,20 +297,29 @@ func TestVerifReplay(t *testing.T) {
 		if len(tail) > 800 {
 			tail = tail[len(tail)-800:]
 		}
-		out.Detail = "replay build failed: " + strings.ReplaceAll(tail, "\n", " | ")
-		return out
+		rb.bins[pkg], rb.errors[pkg] = "", "replay build failed: "+strings.ReplaceAll(tail, "\n", " | ")
+		return "", rb.errors[pkg]
 	}
-	buf.Reset()
-	cmd := exec.Command(bin, "-test.run", "^TestVerifReplay$", "-test.v", "-test.timeout", "20m")
+	rb.bins[pkg] = bin
+	return bin, ""
+}
+
+// run executes the harness natively with the inputs of rfile and returns the VERIF-REPLAY lines.
+func (rb *replayBuilder) run(hs HarnessSpec, rfile string) ([]string, string) {
+	bin, berr := rb.binFor(hs.Pkg)
+	if berr != "" {
+		return nil, berr
+	}
+	var buf bytes.Buffer
+	cmd := exec.Command(bin, "-test.run", "^TestVerifReplay_"+hs.Func+"$", "-test.v", "-test.timeout", "20m")
 	cmd.Dir = "/repo"
 	if st, e2 := os.Stat(filepath.Join("/repo", hs.Pkg)); e2 == nil && st.IsDir() {
 		cmd.Dir = filepath.Join("/repo", hs.Pkg)
 	}
-	cmd.Env = env
+	cmd.Env = replayEnv(rfile)
 	cmd.Stdout = &buf
 	cmd.Stderr = &buf
-	err = cmd.Run()
-	out.Ran = true
+	cmd.Run()
 	txt := buf.String()
 	var lines []string
 	for _, l := range strings.Split(txt, "\n") {
@@ -287,15 +327,27 @@ func TestVerifReplay(t *testing.T) {
 			lines = append(lines, l)
 		}
 	}
-	out.Detail = strings.Join(lines, "; ")
 	if len(lines) == 0 {
 		tail := txt
 		if len(tail) > 600 {
 			tail = tail[len(tail)-600:]
 		}
-		out.Detail = "no replay output: " + strings.ReplaceAll(tail, "\n", " | ")
+		return nil, "no replay output: " + strings.ReplaceAll(tail, "\n", " | ")
+	}
+	return lines, ""
+}
+
+// replayNative re-runs the harness as ordinary Go against the real build with the model values
+// and reports whether the predicted failure shows.
+func (rb *replayBuilder) replayViolation(hs HarnessSpec, rfile string, v *Violation) replayOutcome {
+	out := replayOutcome{File: rfile}
+	lines, errs := rb.run(hs, rfile)
+	if errs != "" {
+		out.Detail = errs
 		return out
 	}
+	out.Ran = true
+	out.Detail = strings.Join(lines, "; ")
 	switch v.Kind {
 	case "assert":
 		for _, l := range lines {
@@ -311,6 +363,34 @@ func TestVerifReplay(t *testing.T) {
 		}
 	}
 	return out
+}
+
+// validateWitness runs the harness natively on a witness model of a completed symbolic path: the
+// native run must satisfy every assumption and every assertion (agreement of the encoding with
+// the real build on that path).
+func (rb *replayBuilder) validateWitness(hs HarnessSpec, rfile string) (bool, string) {
+	lines, errs := rb.run(hs, rfile)
+	if errs != "" {
+		return false, errs
+	}
+	ok := false
+	for _, l := range lines {
+		if l == "VERIF-REPLAY done" {
+			ok = true
+		}
+	}
+	for _, l := range lines {
+		if strings.HasPrefix(l, "VERIF-REPLAY failed=") || strings.HasPrefix(l, "VERIF-REPLAY panic=") || strings.HasPrefix(l, "VERIF-REPLAY assumption-violated") {
+			ok = false
+		}
+	}
+	return ok, strings.Join(lines, "; ")
+}
+
+func replayNative(spec *Spec, hs HarnessSpec, rfile string, v *Violation) replayOutcome {
+	rb := newReplayBuilder(spec)
+	defer rb.close()
+	return rb.replayViolation(hs, rfile, v)
 }
 
 func packageClause(file string) (string, error) {
